@@ -648,7 +648,12 @@ impl Runner {
         let mut ctx = self.new_ctx(0);
         let mut local = Local::default();
         let mut best = v;
-        let mut budget = 3000usize;
+        // records that are not buffers judged in-process are not shrunk (programs,
+        // build combinations) or only briefly (each attempt spawns processes)
+        if matches!(&*best.rec.sub, "compile" | "lattice" | "build" | "race" | "variant-crash" | "crash") {
+            return best;
+        }
+        let mut budget = if &*best.rec.sub == "variant-pair" { 250usize } else { 3000usize };
         let same = |ctx: &mut Ctx, local: &mut Local, rec: &CaseRec, sig: &str| -> Option<Violation> {
             match check(ctx, local, rec) {
                 Err(v2) if v2.sig == sig => Some(v2),
